@@ -33,10 +33,10 @@ def _one(ctx, module, chunk, idx, label, timeout, cfg):
     res = tlc.run(rundir, module, cfg or CFG, workers=1, env={'TRACE_FILE': tf},
                   timeout=timeout, coverage=False, label='%s_%d' % (label, idx))
     rej = {}
-    for m in re.finditer(r'<<"REJ", (-?\d+), "([^"]*)", (-?\d+)>>', res.out):
+    for m in re.finditer(r'<<\s*"REJ",\s*(-?\d+),\s*"([^"]*)",\s*(-?\d+)\s*>>', res.out):
         rej[int(m.group(1))] = (m.group(2), int(m.group(3)))
-    res.drift_ids = [int(x) for x in re.findall(r'<<"DRIFT", (-?\d+)>>', res.out)]
-    m = re.search(r'<<"ACCEPTED", (\d+), (\d+)>>', res.out)
+    res.drift_ids = [int(x) for x in re.findall(r'<<\s*"DRIFT",\s*(-?\d+)\s*>>', res.out)]
+    m = re.search(r'<<\s*"ACCEPTED",\s*(\d+),\s*(\d+)\s*>>', res.out)
     if not m:
         raise MachineryError('no ACCEPTED line from %s chunk %d:\n%s'
                              % (module, idx, res.out[-2000:]))
